@@ -59,6 +59,30 @@ partial def parseYaml (cs : List Char) : Option Y :=
 
 def parseYamlS (s : String) : Option Y := parseYaml s.toList
 
+/-! guard: a decimal exponent of seven or more digits would make the exact evaluation build a power of ten
+    with millions of digits (std saturates such exponents); the harness does not generate them and the
+    driver refuses them instead of running out of memory -/
+
+def hugeExpText : Str → Bool
+  | [] => false
+  | c :: r =>
+    if c = 'e' || c = 'E' then
+      let r' := match r with
+        | '+' :: t => t
+        | '-' :: t => t
+        | t => t
+      if (r'.takeWhile isDigit).length ≥ 7 then true else hugeExpText r
+    else hugeExpText r
+
+partial def yStrings : Y → List Str
+  | .str s => [s]
+  | .num n => [n.text]
+  | .seq l => l.flatMap yStrings
+  | .map m => m.flatMap (fun e => yStrings e.1 ++ yStrings e.2)
+  | _ => []
+
+def hugeExpY (y : Y) : Bool := (yStrings y).any hugeExpText
+
 /-! converter, literal table, alphabetic set -/
 
 def parseUnit (s : String) : Option (TUnit Float) :=
@@ -117,15 +141,18 @@ def renderSyn : Option F64Syn → String
 def handleStdMeta : List String → Option String
   | ["sm_minutes", conv, y] => do
     let c ← parseConv conv; let y ← parseYamlS y
+    if hugeExpY y then return "huge-exponent"
     return renderMinutes (valueAsMinutes c y)
   | ["sm_time", conv, y] => do
     let c ← parseConv conv; let y ← parseYamlS y
+    if hugeExpY y then return "huge-exponent"
     return renderTime (valueAsTime c y)
   | ["sm_common", t] => do
     let t ← parseText? t
     return renderOptNat (commonTime t)
   | ["sm_units", conv, t] => do
     let c ← parseConv conv; let t ← parseText? t
+    if hugeExpText t then return "huge-exponent"
     return renderOptNat (parseTimeWithUnits c t)
   | ["sm_servings", y] => do
     let y ← parseYamlS y
@@ -153,6 +180,7 @@ def handleStdMeta : List String → Option String
   | ["sm_stdcheck", conv, alpha, key, y] => do
     let c ← parseConv conv; let a ← parseAlpha alpha
     let key ← parseText? key; let y ← parseYamlS y
+    if hugeExpY y then return "huge-exponent"
     return match StdKey.fromStr key with
       | none => "ok"
       | some k => match checkStdEntry c a k y with
